@@ -2,8 +2,11 @@
 Lemmas/RelocAll.lean — relocation (C18-R1), part 5: the two statement classes (`Unmoved`, `Moved`), the
 per-statement step `fixFit` (`fix_addresses; fit_operand_width`) by class, `fixAll` as a whole, and the
 origin / name scan.
+Repair batch B3: a `needsRes` statement WITH post byte choices is a PCR operand (`Unmoved` when its target moves by
+`D` or by `D` modulo `$10000`); one WITHOUT choices is a label as constant offset of a pointer register, whose 16-bit
+offset field is the label's address: `Moved = MovedRef ∨ MovedAbs`.
 -/
-import CoCoVerif.Lemmas.RelocEmit
+import CoCoVerif.Lemmas.RelocLabel
 
 namespace CoCo
 
@@ -64,94 +67,197 @@ open CoCo
 
 /-! ### the two classes -/
 
-/-- `e` is `label + k` or `label - k` (one operand a number), whose value in the layout `as` still fits 16
-bits after moving by `D` (the value itself is `.numeric z (some 4) .extended false`: `label + k` is rejected
-above `$FFFF`, `label - k` is computed modulo `$10000`; without the bound `label - k` moves by `D` modulo
-`$10000`, see `fixOne_reloc_expr_minus_mod`).
-Since repair batch B2 the number is SIGNED: the other operand `.numeric k hh mm nn` contributes `signedK k nn`, i.e.
-`-k` when it was written or defined (EQU) with a minus sign, so `label + N` with `N EQU -2` is `label - 2`.  The
-bound then also says that `label + N` is not NEGATIVE in the layout `as` (`calculate_address_offset` does not reduce
-`+` modulo `$10000`; a negative value is stored in two's complement and moves by `D` modulo `$10000`, see the class
-`MovedMod` of Lemmas/RelocMod.lean).  In arithmetic terms: `numExpr_plus_iff`, `numExpr_minus_iff`
-(Lemmas/RelocSigned.lean). -/
+/-- `e` is `label + k`, `label - k` or `k + label` (one operand a number; `LabelSide`: since repair batch B3 the
+operands are combined in the written order, so the label is the left operand unless the operator is `+`), whose
+value in the layout `as` still fits 16 bits after moving by `D`.  The value itself is `.numeric z (some 4) .extended
+false` with `z = (a ± k) mod $10000`: since B3 BOTH operators reject a result above `$FFFF` and reduce a negative one
+modulo `$10000` (before, `label + k` could be a negative number and `label - k` was never rejected).  Without the
+bound the value moves by `D` modulo `$10000`, see `fixOne_reloc_expr_mod` and the class `MovedMod` of
+Lemmas/RelocMod.lean.
+The number is SIGNED (repair batch B2): the other operand `.numeric k hh mm nn` contributes `signedK k nn`, i.e.
+`-k` when it was written or defined (EQU) with a minus sign, so `label + N` with `N EQU -2` is `label - 2`.  In
+arithmetic terms: `numExpr_plus_iff`, `numExpr_minus_iff` (Lemmas/RelocSigned.lean). -/
 def NumExpr (D : Nat) (as : List Stmt) (e : Value) : Prop :=
   ∃ l r op m k hh mm nn, e = .expr l r op m true ∧ (if l.isAddress then r else l) = .numeric k hh mm nn ∧
-    (op = '+' ∨ op = '-') ∧
+    (op = '+' ∨ op = '-') ∧ LabelSide l r op ∧
     ∀ v, addrOffset as e = .ok v → ∃ z, v = .numeric z (some 4) .extended false ∧ z + D ≤ 65535
 
 /-- `e` is `label - label` -/
 def DiffExpr (e : Value) : Prop :=
   ∃ l r m, e = .expr l r '-' m true ∧ (if l.isAddress then r else l).isAddress = true
 
+/-- the target of a `needsRes` statement moves by `D`: it is a plain label (the statement index sits in
+`additional`), or a `label ± k` expression in the class `NumExpr` -/
+def TargetMoves (D : Nat) (as : List Stmt) (s : Stmt) : Prop :=
+  s.isIdx = false ∨ s.pkg.additional.isAddrExpr = false ∨ (s.isIdx = true ∧ NumExpr D as s.pkg.additional)
+
+/-- the target of a `needsRes` statement moves by `D` MODULO `$10000`: it is a `label ± N` expression that both
+layouts accept (`ModExpr`; a negative `label + N` is reduced modulo `$10000` since B3) -/
+def TargetMovesMod (D : Nat) (as : List Stmt) (s : Stmt) : Prop :=
+  s.isIdx = true ∧ ModExpr D as s.pkg.additional
+
 /-- statements whose code must not change: branches; statements without a label in the operand (PCR
-operands with a plain target or a `label ± k` target included); `label - label` -/
+operands — `needsRes` WITH post byte choices — with a plain target or a `label ± k` target included; the target may
+move by `D` or by `D` modulo `$10000`, the displacement is computed modulo `$10000`); `label - label` -/
 def Unmoved (D : Nat) (as : List Stmt) (s : Stmt) : Prop :=
   s.operand.kind = .relative ∨
   ((s.operand.kind == .relative) = false ∧ s.operand.value.isAddrExpr = false ∧
     s.operand.value.isAddress = false ∧
-    (s.pkg.needsRes = false ∨ s.isIdx = false ∨ s.pkg.additional.isAddrExpr = false ∨
-      (s.isIdx = true ∧ NumExpr D as s.pkg.additional))) ∨
+    (s.pkg.needsRes = false ∨ (s.pkg.choices.isEmpty = false ∧ (TargetMoves D as s ∨ TargetMovesMod D as s)))) ∨
   ((s.operand.kind == .relative) = false ∧ s.pkg.needsRes = false ∧ DiffExpr s.operand.value)
 
-/-- statements with an absolute reference to a label of the program: `label`, `label + k`, `label - k`, in a
-16-bit operand field (`FieldWide`: extended, 16-bit immediate, `[label]`, FDB; NOT `<label` or `FCB label`,
-where `fit_operand_width` accepts the value `x` and may reject `x + D`) -/
-def Moved (D : Nat) (as : List Stmt) (s : Stmt) : Prop :=
+/-- statements whose OPERAND is an absolute reference to a label of the program: `label`, `label + k`,
+`label - k`, in a 16-bit operand field (`FieldWide`: extended, 16-bit immediate, `[label]`, `[label+1]`, FDB; NOT
+`<label` or `FCB label`, where `fit_operand_width` accepts the value `x` and may reject `x + D`) -/
+def MovedRef (D : Nat) (as : List Stmt) (s : Stmt) : Prop :=
   (s.operand.kind == .relative) = false ∧ s.pkg.needsRes = false ∧
   ((∃ t m, s.operand.value = .address t m) ∨ NumExpr D as s.operand.value) ∧ FieldWide s
 
+/-- (repair batch B3) statements with a label or `label ± k` as CONSTANT OFFSET of a pointer register (`LDA TABLE,X`,
+`LDB TBL+1,Y`, `LDD [TBL,U]`): no label in the operand value, `needsRes` WITHOUT post byte choices; the 16-bit offset
+field is the target address itself -/
+def MovedAbs (D : Nat) (as : List Stmt) (s : Stmt) : Prop :=
+  (s.operand.kind == .relative) = false ∧ s.operand.value.isAddrExpr = false ∧
+  s.operand.value.isAddress = false ∧ s.pkg.needsRes = true ∧ s.pkg.choices.isEmpty = true ∧
+  TargetMoves D as s ∧ FieldWide s
+
+/-- statements with an absolute reference to a label of the program in a 16-bit field: as the operand
+(`MovedRef`) or as constant offset of a pointer register (`MovedAbs`) -/
+def Moved (D : Nat) (as : List Stmt) (s : Stmt) : Prop := MovedRef D as s ∨ MovedAbs D as s
+
+theorem Moved.fieldWide {D : Nat} {as : List Stmt} {s : Stmt} (h : Moved D as s) : FieldWide s := by
+  rcases h with h | h
+  · exact h.2.2.2
+  · exact h.2.2.2.2.2.2
+
 section
 variable {D : Nat} {as as' : List Stmt}
+
+/-- the target of a `needsRes` statement in the class moves by `D` -/
+theorem TargetMoves.reloc (h : PW (AddrShiftI D) as as') {s : Stmt} (hr : TargetMoves D as s) :
+    fixRelTarget as' s = (fixRelTarget as s).map (· + D) := by
+  rcases hr with hx | hx | ⟨hidx, l, r, op, m, k, hh, mm, nn, he, hother, hop, hside, hb⟩
+  · exact fixRelTarget_reloc_plain h s (.inl hx)
+  · exact fixRelTarget_reloc_plain h s (.inr hx)
+  · rw [he] at hb
+    exact fixRelTarget_reloc_num h s hidx he hother hop hside hb
+
+/-- the address of a statement of the original layout, moved by `D`, is inside the 64K space -/
+theorem addrIntOf_wide (h : PW (AddrShift D) as as') {t a : Nat} (ha : addrIntOf as t = some a) :
+    a + D < 65536 := by
+  unfold addrIntOf addrOf at ha
+  cases hj : as[t]? with
+  | none => rw [hj] at ha; cases ha
+  | some x =>
+    rw [hj] at ha
+    obtain ⟨x', _, _, a0, hh, m, e1, _, _, hlt⟩ := h.get hj
+    simp only [Option.map_some, Option.bind_some, e1, Value.int?, Option.some.injEq] at ha
+    omega
+
+/-- the moved target stays inside the 64K space -/
+theorem TargetMoves.bound (h : PW (AddrShift D) as as') {s : Stmt} (hr : TargetMoves D as s) :
+    ∀ r, fixRelTarget as s = .ok r → r + D ≤ 65535 := by
+  intro r hrr
+  have plain : (s.isIdx = false ∨ s.pkg.additional.isAddrExpr = false) → r + D ≤ 65535 := by
+    intro hp
+    rw [fixRelTarget_plain _ _ hp] at hrr
+    cases hi : s.pkg.additional.int? with
+    | none => rw [hi] at hrr; cases hrr
+    | some t =>
+      rw [hi] at hrr
+      dsimp only at hrr
+      cases ha : addrIntOf as t with
+      | none => rw [ha] at hrr; cases hrr
+      | some a =>
+        rw [ha] at hrr
+        cases hrr
+        have := addrIntOf_wide h ha
+        omega
+  rcases hr with hx | hx | ⟨hidx, l, r', op, m, k, hh, mm, nn, he, _, _, _, hb⟩
+  · exact plain (.inl hx)
+  · exact plain (.inr hx)
+  · rw [fixRelTarget_expr _ _ hidx he] at hrr
+    rw [he] at hb
+    cases ho : addrOffset as (.expr l r' op m true) with
+    | ok v =>
+      rw [ho] at hrr
+      obtain ⟨z, rfl, hz⟩ := hb v ho
+      cases hrr
+      exact hz
+    | _ => rw [ho] at hrr; cases hrr
 
 /-- (b, unmoved) IDENTICAL outcome of `fixOne` -/
 theorem fixOne_unmoved (h : PW (AddrShiftI D) as as') (i : Nat) {s : Stmt} (hc : Unmoved D as s) :
     fixOne as' i s = fixOne as i s := by
   rcases hc with hk | ⟨hk, hE, hA, hr⟩ | ⟨hk, hn, l, r, m, hv, ho⟩
   · exact fixOne_reloc_relative h i s hk
-  · rcases hr with hn | hx | hx | ⟨hidx, l, r, op, m, k, hh, mm, nn, he, hother, hop, hb⟩
+  · rcases hr with hn | ⟨hc, hr⟩
     · exact fixOne_reloc_inert _ _ i s hk hE hA hn
-    · exact fixOne_reloc_pcr_plain h i s hk hE hA (.inl hx)
-    · exact fixOne_reloc_pcr_plain h i s hk hE hA (.inr hx)
-    · rw [he] at hb
-      exact fixOne_reloc_pcr_num h i s hk hE hA hidx he hother hop hb
+    · rcases hr with hr | ⟨hidx, hr⟩
+      · exact fixOne_reloc_pcr h i s hk hE hA hc (hr.reloc h)
+      · obtain ⟨x, _, e1, e2⟩ := fixRelTarget_modExpr h hidx hr
+        exact fixOne_reloc_pcr_mod h i s hk hE hA hc (by rw [e1, e2]; rfl)
   · exact fixOne_reloc_expr_diff h i s hk hv hn ho
+
+/-- (b, moved, operand) the outcome of `fixOne` is the same up to moving the operand field by `D` -/
+theorem fixOne_movedRef (h : PW (AddrShift D) as as') (i : Nat) {s : Stmt} (hc : MovedRef D as s) :
+    fixOne as' i s = (fixOne as i s).map (Stmt.shiftAdditional D) := by
+  obtain ⟨hk, hn, hv, _⟩ := hc
+  rcases hv with ⟨t, m, hv⟩ | ⟨l, r, op, m, k, hh, mm, nn, hv, hother, hop, hside, hb⟩
+  · exact fixOne_reloc_address h i s hk hv hn
+  · rw [hv] at hb
+    exact fixOne_reloc_expr_num (h.mono (fun _ _ => AddrShift.toI)) i s hk hv hn hother hop hside hb
+
+/-- (b, moved, constant offset) the outcome of `fixOne` is the same up to moving the 16-bit offset field by `D` -/
+theorem fixOne_movedAbs (h : PW (AddrShift D) as as') (i : Nat) {s : Stmt} (hc : MovedAbs D as s) :
+    fixOne as' i s = (fixOne as i s).map (Stmt.shiftAdditional D) := by
+  obtain ⟨hk, hE, hA, hn, hcc, hr, _⟩ := hc
+  exact fixOne_reloc_abs i s hk hE hA hn hcc (hr.reloc (h.mono (fun _ _ => AddrShift.toI))) (hr.bound h)
 
 /-- (b, moved) the outcome of `fixOne` is the same up to moving the operand field by `D` -/
 theorem fixOne_moved (h : PW (AddrShift D) as as') (i : Nat) {s : Stmt} (hc : Moved D as s) :
-    fixOne as' i s = (fixOne as i s).map (Stmt.shiftAdditional D) := by
-  obtain ⟨hk, hn, hv, _⟩ := hc
-  rcases hv with ⟨t, m, hv⟩ | ⟨l, r, op, m, k, hh, mm, nn, hv, hother, hop, hb⟩
-  · exact fixOne_reloc_address h i s hk hv hn
-  · rw [hv] at hb
-    exact fixOne_reloc_expr_num (h.mono (fun _ _ => AddrShift.toI)) i s hk hv hn hother hop hb
+    fixOne as' i s = (fixOne as i s).map (Stmt.shiftAdditional D) :=
+  hc.elim (fixOne_movedRef h i) (fixOne_movedAbs h i)
 
 /-- what a moved statement stores is a wide address value (two bytes, big endian) -/
 theorem fixOne_moved_wide (h : PW (AddrShift D) as as') (i : Nat) {s t : Stmt} (hc : Moved D as s)
     (ht : fixOne as i s = .ok t) : WideAddr D t.pkg.additional (shiftV D t.pkg.additional) := by
-  obtain ⟨hk, hn, hv, _⟩ := hc
-  rcases hv with ⟨tg, m, hv⟩ | ⟨l, r, op, m, k, hh, mm, nn, hv, hother, hop, hb⟩
-  · rw [fixOne_address_eq _ _ _ hk hv hn] at ht
-    unfold addrOf at ht
-    cases hj : as[tg]? with
-    | none => rw [hj] at ht; cases ht
-    | some x =>
-      rw [hj] at ht
-      simp only [Option.map_some, Outcome.ok.injEq] at ht
-      subst ht
-      obtain ⟨x', _, _, hw⟩ := h.get hj
-      have := hw.shiftV
-      dsimp only
-      rw [← this]; exact hw
-  · rw [hv] at hb
-    rw [fixOne_expr_eq _ _ _ hk hv hn] at ht
-    cases ho : addrOffset as (.expr l r op m true) with
-    | ok v =>
-      rw [ho] at ht
-      simp only [Outcome.ok.injEq] at ht
-      subst ht
-      obtain ⟨z, rfl, hz⟩ := hb v ho
-      exact ⟨z, some 4, .extended, rfl, rfl, .inl rfl, by omega⟩
-    | _ => rw [ho] at ht; cases ht
+  rcases hc with ⟨hk, hn, hv, _⟩ | ⟨hk, hE, hA, hn, hcc, hr, _⟩
+  · rcases hv with ⟨tg, m, hv⟩ | ⟨l, r, op, m, k, hh, mm, nn, hv, hother, hop, hside, hb⟩
+    · rw [fixOne_address_eq _ _ _ hk hv hn] at ht
+      unfold addrOf at ht
+      cases hj : as[tg]? with
+      | none => rw [hj] at ht; cases ht
+      | some x =>
+        rw [hj] at ht
+        simp only [Option.map_some, Outcome.ok.injEq] at ht
+        subst ht
+        obtain ⟨x', _, _, hw⟩ := h.get hj
+        have := hw.shiftV
+        dsimp only
+        rw [← this]; exact hw
+    · rw [hv] at hb
+      rw [fixOne_expr_eq _ _ _ hk hv hn] at ht
+      cases ho : addrOffset as (.expr l r op m true) with
+      | ok v =>
+        rw [ho] at ht
+        simp only [Outcome.ok.injEq] at ht
+        subst ht
+        obtain ⟨z, rfl, hz⟩ := hb v ho
+        exact ⟨z, some 4, .extended, rfl, rfl, .inl rfl, by omega⟩
+      | _ => rw [ho] at ht; cases ht
+  · by_cases hv : s.operand.value = .pyNone
+    · rw [fixOne_pyNone _ _ _ hk hv] at ht; cases ht
+    · rw [fixOne_abs_eq _ _ _ hk hv hE hA hn hcc, fixPartAbs_eq] at ht
+      cases hrr : fixRelTarget as s with
+      | ok r =>
+        rw [hrr] at ht
+        have hb := hr.bound h r hrr
+        dsimp only at ht
+        rw [if_pos (by omega)] at ht
+        cases ht
+        exact ⟨r, some 4, .extended, rfl, rfl, .inl rfl, by omega⟩
+      | _ => rw [hrr] at ht; cases ht
 
 /-! ### the per-statement step `fixFit` = `fixOne` then `fitWidth` -/
 
@@ -172,7 +278,7 @@ theorem fixFit_moved_aux (h : PW (AddrShift D) as as') (i : Nat) {s : Stmt} (hc 
   rw [h1]
   cases ho : fixOne as i s with
   | ok t =>
-    have hfw : FieldWide t := hc.2.2.2.same (fixOne_same ho)
+    have hfw : FieldWide t := hc.fieldWide.same (fixOne_same ho)
     obtain ⟨t1, e1, e2, hw⟩ := fitWidth_wide hfw (h2 t ho)
     simp only [Outcome.map_ok]
     rw [e1, e2]
